@@ -77,11 +77,24 @@ func main() {
 		return
 	}
 
+	// bring every database up to date with its log first, as the console does
+	// at start-up: statements of an earlier program run may be in the log only
+	if err := storage.InitStorage(); err != nil {
+		fmt.Println(err.Error())
+		os.Exit(1)
+	}
+
 	rm, err := storage.OpenRelation(*cfgDb, !*cfgDisableFsync)
 	if err != nil {
 		fmt.Println(err.Error())
 		os.Exit(1)
 	}
+	// flush the imported rows and the file header before the program ends
+	defer func() {
+		if err := rm.Close(); err != nil {
+			fmt.Println(err.Error())
+		}
+	}()
 
 	// create import configuration from the provided arguments
 	cfg, err := makeConfig(rm)
